@@ -214,15 +214,23 @@ def run(chk):
         root.req("PUT", "/bklock/x", query={"tagging": ""}, body=TAG % b"x"); root.req("PUT", "/bklock/d/", query={"tagging": ""}, body=TAG % b"d")
         def attrs_of(key):
             t = root.req("GET", "/bklock/" + key, query={"tagging": ""}); lh = root.req("GET", "/bklock/" + key, query={"legal-hold": ""}); rt = root.req("GET", "/bklock/" + key, query={"retention": ""})
+            gg = root.req("GET", "/bklock/" + key); lv = root.req("GET", "/bklock", query={"versions": "", "prefix": key})
+            vers = sorted((x.tag, x.findtext("VersionId"), x.findtext("IsLatest")) for x in list(lv.xml().findall("Version")) + list(lv.xml().findall("DeleteMarker")) if x.findtext("Key") == key) if lv.status == 200 and lv.xml() is not None else None
             return (t.status, sorted((e.findtext("Key"), e.findtext("Value")) for e in t.xml().iter("Tag")) if t.status == 200 and t.xml() is not None else None,
-                    lh.status, lh.xml().findtext("Status") if lh.status == 200 and lh.xml() is not None else None, rt.status, rt.xml().findtext("Mode") if rt.status == 200 and rt.xml() is not None else None)
+                    lh.status, lh.xml().findtext("Status") if lh.status == 200 and lh.xml() is not None else None, rt.status, rt.xml().findtext("Mode") if rt.status == 200 and rt.xml() is not None else None,
+                    gg.status, _h.md5(gg.body).hexdigest() if gg.status == 200 else None, vers)
         LH = b"<LegalHold><Status>ON</Status></LegalHold>"
         RET = b"<Retention><Mode>GOVERNANCE</Mode><RetainUntilDate>2031-01-01T00:00:00Z</RetainUntilDate></Retention>"
         for real, other in (("x", "x/"), ("d/", "d")):
             for opname, method, q, body in (("PutObjectTagging", "PUT", {"tagging": ""}, TAG % b"intruder"), ("DeleteObjectTagging", "DELETE", {"tagging": ""}, b""), ("GetObjectTagging", "GET", {"tagging": ""}, b""),
                                             ("PutObjectLegalHold", "PUT", {"legal-hold": ""}, LH), ("GetObjectLegalHold", "GET", {"legal-hold": ""}, b""),
-                                            ("PutObjectRetention", "PUT", {"retention": ""}, RET), ("GetObjectRetention", "GET", {"retention": ""}, b"")):
+                                            ("PutObjectRetention", "PUT", {"retention": ""}, RET), ("GetObjectRetention", "GET", {"retention": ""}, b""),
+                                            ("DeleteObject", "DELETE", {}, b""), ("DeleteObject-by-version", "DELETE", {"versionId": "CURRENT"}, b"")):
                 before = attrs_of(real)
+                if q.get("versionId") == "CURRENT":
+                    cur_ = [v for v in (before[8] or []) if v[2] == "true"]
+                    if not cur_: continue
+                    q = {"versionId": cur_[0][1]}
                 hd = {"Content-MD5": base64.b64encode(_h.md5(body).digest()).decode()} if body and method == "PUT" else {}
                 r = root.req(method, "/bklock/" + other, query=q, body=body, headers=hd)
                 after_ = attrs_of(real)
@@ -231,6 +239,12 @@ def run(chk):
                 row = {"stored_key": real, "request": "%s on key %r" % (opname, other), "status": r.status, "code": r.code, "attributes_before": before, "attributes_after": after_}
                 rows.append(row)
                 leaked = method == "GET" and r.status == 200
+                if after_[6] != before[6] or after_[8] != before[8]:
+                    # the stored object itself went away or got a delete marker: put it back for the remaining operations
+                    for v_ in (after_[8] or []):
+                        if v_[0] == "DeleteMarker": root.req("DELETE", "/bklock/" + real, query={"versionId": v_[1]})
+                    if root.req("HEAD", "/bklock/" + real).status != 200:
+                        root.req("PUT", "/bklock/" + real, body=b"file-x" if real == "x" else b"")
                 if after_ != before or leaked:
                     chk.fail("c04:other-kind-key-%s:%s" % ("read" if leaked and after_ == before else "modified", opname),
                              "%s on the key %r (which does not exist: the stored key is %r) answered %d and %s" % (
